@@ -6,7 +6,7 @@ from .. import build, framework as fw, markers, trees, reqmodel
 from ..sexp import S, unS, dump
 
 PIECES = [';', '#', '@', '[', ']', '$', '{', '}', ' ', '\t', 'a', '/', ':', '${VERIF_V}', '${VERIF_UNSET}', '${PROJECT_ROOT}', '${verif_v}', '$VERIF_V', '${VERIF_V', '${}', '%20', 'é', '　', '\n', '?q=1', '.']
-BASES = ['https://h/p', 'file:///a/b', 'git+https://h/r@v1', 'https://h', '${VERIF_V}', 'https://${VERIF_V}/p']
+BASES = ['https://h/p', 'file:///a/b', 'git+https://h/r@v1', 'https://h', '${VERIF_V}', 'https://${VERIF_V}/p', 'hg+static-http://h/repo@v1', 'x-y.z+w://h/p']
 CONTEXTS = ['', ' ', " ; os_name == 'a'", ";os_name == 'a'", "; os_name == 'a'", " ;os_name == 'a'", ' #c', '# c', ' # c', '#c', '\n', "\n; os_name == 'a'", ' x', '　;os_name=="a"']
 ENVS = [None, 'x', 'a b', ' ;', '', 'é', 'https://q/', '${VERIF_V}', '#']
 
